@@ -675,11 +675,10 @@ pub fn run(ctx: &Ctx, rep: &mut Report) {
             if ok {
                 if standalone {
                     let want = w.g.model.is_latest(&plan);
-                    if ret != Some(want) && ctx.prop == "C01" {
-                        rep.violation(
-                            "validate_proof-latest-flag",
-                            format!("validate_proof returned {:?}, newest-set flag should be {}", ret, want),
-                        );
+                    if ret != Some(want) {
+                        // the returned flag is not part of the statement; its consequences
+                        // (who may rotate) are checked by C03 / C08
+                        rep.count("note:validate_proof-flag-differs-from-newest");
                     }
                     if !events.is_empty() && ctx.prop == "C01" {
                         rep.violation("validate_proof-emitted-events", format!("{:?}", events));
